@@ -374,7 +374,13 @@ class Interp:
                 v.fields["closed"] = True
 
     def st_FunctionDef(self, st, fr):
-        raise Unsupported("nested function definition")
+        # nested function: a closure over the enclosing frame's variables (read access; late binding as in Python)
+        if st.decorator_list:
+            raise Unsupported("decorated nested function")
+        info = FuncInfo(fr.module, f"{fr.func.qualname if fr.func else '<harness>'}.<locals>.{st.name}", st)
+        f = PFunc(info)
+        f.closure = fr
+        fr.locals[st.name] = f
 
     def st_Try(self, st, fr):
         try:
@@ -571,6 +577,11 @@ class Interp:
     def load_name(self, name, fr, node=None):
         if name in fr.locals:
             return fr.locals[name]
+        clo = getattr(fr, "closure", None)
+        while clo is not None:
+            if name in clo.locals:
+                return clo.locals[name]
+            clo = getattr(clo, "closure", None)
         v = self.ctx.lookup_special(name, fr)
         if v is not NotImplemented:
             return v
@@ -909,6 +920,9 @@ class Interp:
         if isinstance(fn, PFunc):
             if fn.bound_self is not None:
                 args = [fn.bound_self, *args]
+            clo = getattr(fn, "closure", None)
+            if clo is not None:
+                return self.inline_call(fn.info, args, kwargs, fr, closure=clo)
             return self.call_function(fn.info, args, kwargs, node, fr)
         if isinstance(fn, PClass):
             return self.instantiate(fn.info, args, kwargs, node, fr)
@@ -975,12 +989,13 @@ class Interp:
             return r
         return self.inline_call(info, args, kwargs, fr)
 
-    def inline_call(self, info, args, kwargs, fr, spec=None):
+    def inline_call(self, info, args, kwargs, fr, spec=None, closure=None):
         depth = fr.depth + 1 if fr is not None else 0
         if depth > self.MAX_DEPTH:
             raise Unsupported(f"call depth exceeded at {info.key} (recursion?)")
         loc = self.bind_args(info, args, kwargs, fr)
         sub = Frame(info.module, info, fr.spec if (spec is None and fr is not None) else bool(spec), loc, depth)
+        sub.closure = closure
         self.ctx.enter(info)
         try:
             self.exec_block(info.node.body, sub)
